@@ -117,10 +117,12 @@ impl Twins {
 
 /// histories: kind 0 open; 1 open+increase; 2 open+opposite; 3 open, counter-trade, close;
 /// 4 open, deposit, withdraw; 5 open, counter-trade, liquidate; 6 as 3 but the trader's wallet is
-/// emptied (a transfer to a third party, in both deployments) before the close
+/// emptied (a transfer to a third party, in both deployments) before the close; 7-10 a funding
+/// settlement with a symbolic oracle price, then close / opposite order / withdraw, increase and
+/// close / liquidation; 11 partial closes under a tight price band
 fn lockstep(kind: u8, side: Side, fees: bool, seed: u64) -> impl Fn() {
     move || {
-        let mut t = twins(fees, kind == 5 && seed % 2 == 1);
+        let mut t = twins(fees, (kind == 5 && seed % 2 == 1) || kind == 11);
         let d = t.cw.w.d;
         let lev = Uint128::new(if kind == 5 { 10 * d } else { (2 + (seed % 3) as u128) * d });
         symrt::set_full(kind == 0);
@@ -163,6 +165,70 @@ fn lockstep(kind: u8, side: Side, fees: bool, seed: u64) -> impl Fn() {
                     t.step(Op::Liquidate { by: LIQ, trader: ALICE, limit: Uint128::zero() });
                 }
             }
+            11 => {
+                // a tight price band: ClosePosition closes the configured fraction, twice, then
+                // the band is lifted and the rest is closed
+                let m2 = Uint128::new((12 + (seed % 7) as u128) * d);
+                let (ok, _) = t.step(Op::Open { who: BOB, side: opp(&side), margin: m2, lev, limit: Uint128::zero(), funds: None });
+                if !ok {
+                    return;
+                }
+                t.next_block(15);
+                for w in [&mut t.cw.w, &mut t.nat.w] {
+                    assert!(w.update_vamm(0, None, None, None, None, Some(Uint128::new(d / 1000)), None).ok);
+                }
+                t.next_block(15);
+                symrt::set_full(true);
+                t.step(Op::Close { who: ALICE, limit: Uint128::zero() });
+                t.next_block(15);
+                t.step(Op::Close { who: ALICE, limit: Uint128::zero() });
+                t.next_block(15);
+                for w in [&mut t.cw.w, &mut t.nat.w] {
+                    assert!(w.update_vamm(0, None, None, None, None, Some(Uint128::zero()), None).ok);
+                }
+                t.step(Op::Close { who: ALICE, limit: Uint128::zero() });
+            }
+            7 | 8 | 9 | 10 => {
+                // a counter-party, a day passes, the oracle moves (symbolic), funding is settled,
+                // then alice closes / reverses / withdraws and increases / is liquidated
+                let m2 = Uint128::new((10 + (seed % 5) as u128) * d);
+                let (ok, _) = t.step(Op::Open { who: BOB, side: opp(&side), margin: m2, lev, limit: Uint128::zero(), funds: None });
+                if !ok {
+                    return;
+                }
+                t.next_block(86_400);
+                let price = crate::sx::var("oracle", 1, 1_000 * d, (if seed % 2 == 0 { 9 } else { 11 }) * d);
+                for w in [&mut t.cw.w, &mut t.nat.w] {
+                    let now = w.now();
+                    w.set_oracle(price, now);
+                }
+                symrt::set_full(true);
+                let (ok, _) = t.step(Op::PayFunding { by: EVE });
+                if !ok {
+                    return;
+                }
+                t.next_block(15);
+                match kind {
+                    7 => {
+                        t.step(Op::Close { who: ALICE, limit: Uint128::zero() });
+                    }
+                    8 => {
+                        let m3 = amount("m3", d, false, 50);
+                        t.step(Op::Open { who: ALICE, side: opp(&side), margin: m3, lev, limit: Uint128::zero(), funds: None });
+                    }
+                    9 => {
+                        let b = amount("wd", d, false, 1);
+                        t.step(Op::Withdraw { who: ALICE, amount: b });
+                        let m3 = amount("m3", d, false, 5);
+                        t.step(Op::Open { who: ALICE, side: side.clone(), margin: m3, lev, limit: Uint128::zero(), funds: None });
+                        t.step(Op::Close { who: ALICE, limit: Uint128::zero() });
+                    }
+                    _ => {
+                        t.step(Op::Liquidate { by: LIQ, trader: ALICE, limit: Uint128::zero() });
+                        t.step(Op::Close { who: BOB, limit: Uint128::zero() });
+                    }
+                }
+            }
             _ => {
                 symrt::set_full(true);
                 let a = amount("dep", d, false, 10);
@@ -177,7 +243,7 @@ fn lockstep(kind: u8, side: Side, fees: bool, seed: u64) -> impl Fn() {
 pub fn scenarios(seed: u64) -> Vec<Scenario> {
     let mut v = vec![];
     let d = "twin deployments (native uwasm / cw20, 6 decimals, same parameters), same symbolic history in lock-step; per step: same success, Position records, vAMM state, engine state and per-account balance deltas proved equal";
-    let kinds = [(0u8, "open"), (1, "increase"), (2, "opposite"), (3, "close"), (4, "depwd"), (5, "liquidate"), (6, "close.thin-wallet")];
+    let kinds = [(0u8, "open"), (1, "increase"), (2, "opposite"), (3, "close"), (4, "depwd"), (5, "liquidate"), (6, "close.thin-wallet"), (7, "fund.close"), (8, "fund.opposite"), (9, "fund.withdraw-increase-close"), (10, "fund.liquidate"), (11, "partial-close")];
     for (k, kn) in kinds {
         for (side, sn) in [(Side::Buy, "long"), (Side::Sell, "short")] {
             for fees in [false, true] {
